@@ -47,7 +47,7 @@ def obligations(facts, armed):
                 continue
             seen.add(sf["pat"])
             sc = conds_of(X, sf)
-            key = "%s::get_serialized_size_bytes@%s:branches" % (short(rect), "serde" if "size_of_item" in txt(sf["body"]) else "fixed")
+            key = "%s::get_serialized_size_bytes(%s)@%s:branches" % (short(rect), ",".join(p["t"].split("<")[0] for p in sf["params"]), "serde" if "size_of_item" in txt(sf["body"]) else "fixed")
             only_size = sorted(sc - wc)
             only_writer = sorted(c for c in (wc - sc))
             if not only_size:
